@@ -464,3 +464,45 @@ def cond_ids(body, b):
         if pol is not None:
             out.add((vid, pol))
     return out
+
+
+def read_cursor_of(body, rt, RC):
+    """name of the ReadConnection field that plays the read cursor for the ReadHalf::read call `rt`: the start of the RangeFrom slice of the buffer
+    handed to the transport.  (1) the start is a read of the field; (2) the start is a local that provably equals a field at the call (eqfacts);
+    (3) the start is a working copy that the body writes back to exactly one field (`end += n; self.read_pos = end`)."""
+    tr = body.trace(rt['args'][1])
+    if tr.get('kind') != 'call':
+        return None
+    rng = body.trace(tr['args'][1])
+    if rng.get('kind') != 'aggr' or not rng['rv'].get('ops'):
+        return None
+    f = trace_field(body, rng['rv']['ops'][0], RC)
+    if f:
+        return f
+    import eqfacts
+    t0 = body.trace(rng['rv']['ops'][0])
+    q0 = op_place(rng['rv']['ops'][0])
+    cand = []
+    if t0.get('kind') == 'local' and t0.get('l') is not None:
+        cand.append(t0['l'])
+    if q0 and place_is_local(q0):
+        cand.append(q0['l'])
+    for l_ in cand:
+        for bb_ in {tr.get('block'), rng.get('block')} - {None}:
+            F_ = eqfacts.field_of_local(body, RC, bb_, None, l_)
+            if F_:
+                return F_
+    # (3) working copy written back to one field
+    names = set()
+    for l_ in cand:
+        same = {l_}
+        for b, i, st in body.iter_assigns():
+            if st['rv']['k'] == 'use' and place_is_local(st['place']) and op_place(st['rv']['op']) and place_is_local(op_place(st['rv']['op'])) and \
+                    op_place(st['rv']['op'])['l'] in same:
+                same.add(st['place']['l'])
+        for b, i, st in body.iter_assigns():
+            if st['rv']['k'] == 'use' and op_place(st['rv']['op']) and place_is_local(op_place(st['rv']['op'])) and op_place(st['rv']['op'])['l'] in same:
+                fn = eqfacts._field_of(body, st['place'], RC)
+                if fn:
+                    names.add(fn)
+    return sorted(names)[0] if len(names) == 1 else None
